@@ -363,7 +363,18 @@ func concLin(root string, seed int64, n int, out string) {
 			}(g, plan)
 		}
 		close(start)
-		wg.Wait()
+		fin := make(chan struct{})
+		go func() { wg.Wait(); close(fin) }()
+		select {
+		case <-fin:
+		case <-time.After(20 * time.Second):
+			fmt.Printf("STALL concurrent history %d (seed %d): calls did not return within 20s\n", h, seed)
+			buf := make([]byte, 1<<16)
+			n := runtime.Stack(buf, true)
+			os.Stderr.Write(buf[:n])
+			w.Flush()
+			os.Exit(5)
+		}
 		// sequential suffix: everything is read back
 		suffix := []string{}
 		ex.sink = func(l string) { suffix = append(suffix, l) }
